@@ -385,6 +385,33 @@ def cli_stream(ctx):
     shutil.rmtree(tmp, ignore_errors=True)
 
 
+def nan_stream(ctx):
+    """real power-flow runs that produce NaN: success must not be reported, NaN must not be the solution"""
+    import numpy as np
+    import andes
+    specs = [('ieee14/ieee14.json', 'dishonest', 0), ('5bus/pjm5bus.xlsx', 'dishonest', 0), ('ieee14/ieee14.json', 'NR', 4)]
+    for case, method, nfac in specs:
+        ss = andes.load(andes.get_case(case), no_output=True, default_config=True)
+        ss.PFlow.config.method = method
+        ss.PFlow.config.n_factorize = nfac
+        ok = ss.PFlow.run()
+        nan = bool(np.isnan(ss.dae.xy).any())
+        cs = {'case': case, 'method': method, 'n_factorize': nfac}
+        ctx.case(('pflow-nan', case, method, nfac) if nan else None, cs)
+        ctx.count('pflow_nan_runs' if nan else 'pflow_regular_runs')
+        if ok and nan:
+            ctx.oracle_fail('pflow-nan-reported-converged', 'PFlow.run() returned True (exit code %d) with NaN in the solution: '
+                            'a NaN residual was turned into mismatch 0 by max(0, nan)' % ss.exit_code, cs)
+        if nan and ss.exit_code == 0:
+            ctx.oracle_fail('pflow-nan-exit-zero', 'NaN solution with exit code 0', cs)
+        # gating: dependent routines must refuse
+        if not ok:
+            r1 = ss.TDS.run(no_summary=True)
+            r2 = ss.EIG.run()
+            if r1 or r2:
+                ctx.oracle_fail('routine-ran-on-unsolved-pflow', 'TDS.run/EIG.run returned %r/%r on an unsolved power flow' % (r1, r2), cs)
+
+
 def tds_stream(ctx, n):
     scs = []
     while len(scs) < n:
@@ -400,6 +427,7 @@ def run(ctx):
     nr_stream(ctx, ctx.n(300, 4000))
     step_stream(ctx, ctx.n(200, 3000))
     tds_stream(ctx, ctx.n(80, 1200))
+    nan_stream(ctx)
     cli_stream(ctx)
 
 
